@@ -196,7 +196,8 @@ def check_restart_replaces(ctx, P, start, variant, rule="F9"):
     else:
         for (ab, _t) in adds:
             for (b, tgt) in edges:
-                if ab in fn.reachable(tgt, removed_blocks=regions | {b}):
+                # `repeating` is a stable atom: later tests of it on the same path take the same outcome
+                if reachable_sensitive(P, fn, ab, removed_blocks=regions | {b}, start=tgt, env0=[(("param", idx), False)]):
                     ok = False
                     detail = "a path from the `!repeating` branch reaches add_retransmission without passing the purge"
         if not edges:
